@@ -225,3 +225,97 @@ Theorem C15_rule6_variant : forall order_tp en msgs v e,
     exists m, member_error_msg true e = Some m /\ In m msgs.
 Proof. exact rule_variant_error_instr_reported. Qed.
 Print Assumptions C15_rule6_variant.
+
+(* ---- rule 6 from the attribute text, and the documented switch #[o2o(allow_unknown)] (Lemmas/Foreign.v) ---- *)
+From O2o.Gen Require Import Tables.
+From O2o.Lemmas Require Import Foreign.
+
+(* the names concerned are read off the regenerated match-arm tables (the arms guarded by `if bark`) *)
+Theorem C15_barked_names :
+  (forallb (fun n => match barked_class n with Some c => is_err_class c | None => false end) barked_type_level_names = true /\
+   forallb (fun n => match find_arm dt_arms n false false with Some (DcUnrec, _) => true | _ => false end) barked_type_level_names = true /\
+   negb (str_in "doc" barked_type_level_names) && negb (str_in "o2o" barked_type_level_names) = true /\
+   barked_type_level_names <> []) /\
+  (forallb (fun n => match barked_member_class n with Some c => is_err_mclass c | None => false end) barked_member_level_names = true /\
+   forallb (fun n => match find_arm mb_arms n false false with Some (McUnrec, _) => true | _ => false end) barked_member_level_names = true /\
+   negb (str_in "doc" barked_member_level_names) && negb (str_in "o2o" barked_member_level_names) = true /\
+   barked_member_level_names <> []).
+Proof. exact (conj barked_names_table barked_member_names_table). Qed.
+Print Assumptions C15_barked_names.
+
+(* a directly written attribute on the type that names a member-level instruction, with no allow_unknown list before it, is recorded
+   as misplaced / misnamed (and so reported: C15_rule6_type_level) - for any attributes before and after it, either back end *)
+Theorem C15_rule6_foreign_type_level : forall be pre a post n ipre d bk,
+    get_data_type_attrs be (pre ++ a :: post) = Ok (d, bk) ->
+    dt_instrs be pre true = Ok (ipre, true) ->
+    ra_path a = Some n -> In n barked_type_level_names ->
+    exists e, In e (d_errs d) /\ (e = DMisplaced n false \/ exists g, e = DMisnamed n g false).
+Proof. exact foreign_type_level_attribute_recorded. Qed.
+Print Assumptions C15_rule6_foreign_type_level.
+
+(* ... and after a list with allow_unknown it changes nothing at all: the parsed type-level attributes (and the verdict, error or
+   not) are those of the input without it - "an input that breaks no rule is never rejected", for this class of inputs *)
+Theorem C15_switch_type_level : forall be pre a post n ipre toks,
+    dt_instrs be pre true = Ok (ipre, false) ->
+    ra_path a = Some n -> In n barked_type_level_names -> bare_attr_tokens be a = Ok toks ->
+    get_data_type_attrs be (pre ++ a :: post) = get_data_type_attrs be (pre ++ post).
+Proof. exact foreign_type_level_attribute_ignored_after_switch. Qed.
+Print Assumptions C15_switch_type_level.
+
+(* the same on a member (field, variant, payload field): recorded when the type does not carry the switch ... *)
+Theorem C15_rule6_foreign_member_level : forall be fty pre a post n m,
+    get_member_attrs be fty (pre ++ a :: post) true = Ok m ->
+    ra_path a = Some n -> In n barked_member_level_names ->
+    exists e, In e (m_errs m) /\ (e = MMisplaced n false \/ exists g, e = MMisnamed n g false).
+Proof. exact foreign_member_level_attribute_recorded. Qed.
+Print Assumptions C15_rule6_foreign_member_level.
+
+(* ... and without any effect when it does *)
+Theorem C15_switch_member_level : forall be fty pre a post n toks,
+    ra_path a = Some n -> In n barked_member_level_names -> bare_attr_tokens be a = Ok toks ->
+    get_member_attrs be fty (pre ++ a :: post) false = get_member_attrs be fty (pre ++ post) false.
+Proof. exact foreign_member_level_attribute_ignored. Qed.
+Print Assumptions C15_switch_member_level.
+
+(* end to end, the whole outcome of the derive (impls, diagnostics, anything): with the switch in place ... *)
+From O2o.Model Require Import Derive.
+
+(* ... a foreign attribute on the type after the switch ... *)
+Theorem C15_switch_whole_derive : forall be order order_tp x pre a post n ipre toks,
+    ri_attrs x = pre ++ a :: post ->
+    dt_instrs be pre true = Ok (ipre, false) ->
+    ra_path a = Some n -> In n barked_type_level_names -> bare_attr_tokens be a = Ok toks -> raw_attr_has_none a = false ->
+    derive_model be order order_tp x = derive_model be order order_tp (with_attrs x (pre ++ post)).
+Proof. exact switch_whole_derive. Qed.
+Print Assumptions C15_switch_whole_derive.
+
+(* ... members that differ only in what get_member_attrs (bark off) does not see ... *)
+Theorem C15_switch_whole_derive_members : forall be order order_tp x d' attrs,
+    get_data_type_attrs be (ri_attrs x) = Ok (attrs, false) ->
+    data_equiv be (ri_data x) d' ->
+    raw_has_none x = false -> raw_has_none (with_data x d') = false ->
+    derive_model be order order_tp x = derive_model be order order_tp (with_data x d').
+Proof. exact switch_whole_derive_members. Qed.
+Print Assumptions C15_switch_whole_derive_members.
+
+(* ... in particular a foreign attribute anywhere on any field of a struct: none of them changes the outcome *)
+Theorem C15_switch_foreign_attribute_on_a_field : forall be order order_tp x sh fs1 f fs2 pre a post n toks attrs,
+    ri_data x = RStruct sh (fs1 ++ f :: fs2) -> rf_attrs f = pre ++ a :: post ->
+    get_data_type_attrs be (ri_attrs x) = Ok (attrs, false) ->
+    ra_path a = Some n -> In n barked_member_level_names -> bare_attr_tokens be a = Ok toks ->
+    raw_has_none x = false ->
+    let f' := {| rf_member := rf_member f; rf_typath := rf_typath f; rf_ty := rf_ty f; rf_attrs := pre ++ post |} in
+    raw_has_none (with_data x (RStruct sh (fs1 ++ f' :: fs2))) = false ->
+    derive_model be order order_tp x = derive_model be order order_tp (with_data x (RStruct sh (fs1 ++ f' :: fs2))).
+Proof. exact switch_foreign_attribute_on_a_field. Qed.
+Print Assumptions C15_switch_foreign_attribute_on_a_field.
+
+(* the hypotheses of the switch theorems are met by `#[o2o(allow_unknown)] #[map(A)] #[parent] struct S { #[where_clause(T: Clone)] a: i32 }` *)
+Theorem C15_switch_example :
+  (exists ipre, dt_instrs S1 ex_pre true = Ok (ipre, false)) /\
+  In "parent"%string barked_type_level_names /\ bare_attr_tokens S1 ex_a = Ok [] /\ raw_attr_has_none ex_a = false /\
+  In "where_clause"%string barked_member_level_names /\ (exists toks, bare_attr_tokens S1 ex_fa = Ok toks) /\
+  (exists attrs, get_data_type_attrs S1 (ri_attrs ex_input) = Ok (attrs, false)) /\
+  (exists ts, derive1 ex_input = OOk ts /\ ts <> []).
+Proof. exact switch_example. Qed.
+Print Assumptions C15_switch_example.
